@@ -340,6 +340,7 @@ def run_rt(spec, acc):
         if cfg['slow']:
             acc.count('slow_appclock_tasks', app_tasks[0])
         acc.count('rt_failing_tasks_next_to_probes', _BOOMS[0])
+        acc.count('rt_tempo_sched_probes_aimed_at_a_running_routine', acc_aimed[0])
         threading.Condition.wait = orig_wait
         inj.stop()
         burn.stop()
@@ -353,6 +354,7 @@ def run_rt(spec, acc):
 
 
 _BOOMS = [0]
+acc_aimed = [0]
 _IN_TEMPO_STEP = threading.Event()
 
 
@@ -428,6 +430,8 @@ def thread_sched_probes(clk, main, rng, tcx):
                 r = Routine.run(body)
             p['lo'], p['hi'] = c0, main.elapsed_time()
         elif clock is clk.SystemClock:
+            if rng.random() < 0.5:
+                _IN_TEMPO_STEP.wait(0.02)       # while a clock thread runs a routine
             c0 = main.elapsed_time()
             if how.endswith('abs'):
                 clock.sched_abs(c0 + d, r)
@@ -436,6 +440,9 @@ def thread_sched_probes(clk, main, rng, tcx):
                 clock.sched(d, r)
                 p['lo'], p['hi'] = c0 + d, main.elapsed_time() + d
         else:
+            if rng.random() < 0.5:
+                _IN_TEMPO_STEP.wait(0.02)
+                acc_aimed[0] += 1
             b0 = clock.secs2beats(main.elapsed_time())
             if how.endswith('abs'):
                 clock.sched_abs(b0 + d, r)
